@@ -227,6 +227,12 @@ def run_symbolic(fn_label, body, cfg_label='', loop_mode=None, setup_ctx=None,
         g.status, g.time, g.backend, g.model, g.detail = 'skipped', 0.0, '', None, 'family already refuted'
         results.append(g)
         continue
+      if name.startswith('undecided:'):
+        # the case itself could not decide this clause (outside its encoding): reported as undecided, never
+        # as a violation and never as discharged
+        g.status, g.time, g.backend, g.model, g.detail = 'unknown', 0.0, '', None, 'outside the encoding of this case'
+        results.append(g)
+        continue
       r = solve.prove(list(hy) + have, goal, tr, timeout_ms)
       if r.status == 'refuted':
         fam_refuted[fam] = fam_refuted.get(fam, 0) + 1
